@@ -818,8 +818,11 @@ def getitem(v, k, ctx):
     if isinstance(v, (bytes, str)):
         if isinstance(k, slice):
             a, b = const_int(k.start) if k.start is not None else None, const_int(k.stop) if k.stop is not None else None
+            st = const_int(k.step) if k.step is not None else None
+            if k.step is not None and st is None:
+                raise Unsupported('symbolic slice step')
             if (k.start is None or a is not None) and (k.stop is None or b is not None):
-                return v[a:b]
+                return v[a:b:st]
             return getitem(mk(term(v), pytype(v)), k, ctx)
         c = const_int(k)
         if c is not None:
@@ -830,7 +833,13 @@ def getitem(v, k, ctx):
         return getitem(mk(term(v), pytype(v)), k, ctx)
     if isinstance(v, tuple):
         if isinstance(k, slice):
-            return v[const_int(k.start) if k.start is not None else None:const_int(k.stop) if k.stop is not None else None]
+            parts = []
+            for x in (k.start, k.stop, k.step):
+                c = const_int(x) if x is not None else None
+                if x is not None and c is None:
+                    raise Unsupported('symbolic slice of a tuple')
+                parts.append(c)
+            return v[parts[0]:parts[1]:parts[2]]
         c = const_int(k)
         if c is None:
             raise Unsupported('symbolic tuple index')
